@@ -1,0 +1,11 @@
+//go:build verif
+
+package pex
+
+// Add-only wrappers for the out-of-tree verification harness (/verif, family `peer`, property C18):
+// the PEX reactor's message codec.  Not compiled without the build tag `verif`.
+
+import "github.com/gogo/protobuf/proto"
+
+func VerifDecodeMsg(bz []byte) (proto.Message, error) { return decodeMsg(bz) }
+func VerifEncodeMsg(pb proto.Message) []byte          { return mustEncode(pb) }
